@@ -393,7 +393,9 @@ func constructEd25519Key(data []byte) (types.SigningPublicKey, error) {
 	}
 
 	// Create Ed25519PublicKey from the bytes using safe constructor
-	ed25519_key, err := ed25519.NewEd25519PublicKey(data)
+	keyCopy := make([]byte, len(data))
+	copy(keyCopy, data)
+	ed25519_key, err := ed25519.NewEd25519PublicKey(keyCopy)
 	if err != nil {
 		return nil, oops.Wrapf(err, "failed to construct Ed25519 public key")
 	}
@@ -412,7 +414,9 @@ func constructEd25519PHKey(data []byte) (types.SigningPublicKey, error) {
 	}
 
 	// Create Ed25519PublicKey from the bytes using safe constructor
-	ed25519ph_key, err := ed25519.NewEd25519PublicKey(data)
+	keyCopy := make([]byte, len(data))
+	copy(keyCopy, data)
+	ed25519ph_key, err := ed25519.NewEd25519PublicKey(keyCopy)
 	if err != nil {
 		return nil, oops.Wrapf(err, "failed to construct Ed25519ph public key")
 	}
